@@ -603,7 +603,9 @@ outcome_t check_solve(const prog_t& P, const truth_t& T, const start_t& S, const
         out.verdict = verdict_t::known(F9_SIG, msg);
         return out;
     }
-    out.verdict = verdict_t::violation("C04/" + where + "/" + clause, msg);
+    out.verdict = verdict_t::violation("C04/" + where + "/" + clause,
+                                       msg + cat(" | optimal face: ", face.kind == c04::face_kind::unbounded ? "unbounded" : face.kind == c04::face_kind::bounded ? "bounded" : "undetermined",
+                                                 " deficient=", deficient, " rounding=", rounding));
     return out;
 }
 
